@@ -11,10 +11,11 @@ DocCells == {<<"S", "x86_64">>, <<"S", "i386">>, <<"S", "src">>, <<"C", "x86_64"
 Pairs == DocCells \X Pool
 PairSets == UNION {kSubset(k, Pairs) : k \in 0..MaxDocImages}
 DocOf(S) == [c \in {p[1] : p \in S} |-> {p[2] : p \in {q \in S : q[1] = c}}]
-MCAdd == \E c \in AddCells, i \in Pool : Add(c[1], c[2], i)
-MCSetVersion == \E ver \in {100, 101, 102} : SetVersion(ver)
-MCLoad == out = "new" /\ \E S \in PairSets, ver \in {100, 101, 102} : Load(DocOf(S), ver)
-MCNext == MCAdd \/ MCSetVersion \/ Dump \/ MCLoad
+MCAdd == \E c \in AddCells, i \in Pool : Add(c[1], c[2], Eff(i))
+MCEdit == \E i \in Pool, id \in {"I1", "I2"} : Edit(i.n, id)
+MCSetVersion == \E ver \in {100, 101, 102, 200} : SetVersion(ver)
+MCLoad == out = "new" /\ \E S \in PairSets, ver \in {100, 101, 102, 200} : Load(DocOf(S), ver)
+MCNext == MCAdd \/ MCSetVersion \/ Dump \/ MCLoad \/ MCEdit
 \* Load of an old document re-files every src image under each binary arch of its variant (C10)
 SrcRefiled == \A S \in PairSets, ver \in {100, 101} :
                 LET doc == DocOf(S) IN
